@@ -88,7 +88,7 @@ inline std::string check_ledger(World const& w,
             // one zero-length record with step count 0; its energy must still
             // be deposited)
             bool killed_at_init = t.steps.size() == 1 && first.step_count == 0
-                                  && first.length == 0 && first.pre.volume < 0;
+                                  && first.length == 0;
             if (first.step_count != 1 && !killed_at_init)
             {
                 std::ostringstream m;
